@@ -15,6 +15,15 @@ TABLE = {
             "and each posterior must lie in the reference interval (1e-9 of scale; TM asymptotic branches: C17's envelope). "
             "Exhaustive within the stated bounds, not a proof for the continuum.", "§6 C01, §5",
             "reference model vf/ref.py + mpmath (40 digits) + CPython float arithmetic"),
+    "C03": ("exploration", "bounded-exhaustive enumeration of every encoding of every weak order on the real code, bit-exact metamorphic comparison",
+            "For every weak order of up to 4 (quick) / 5 (thorough) teams, ~60-90 encodings (ints, floats, mixed typing patterns, negatives, "
+            "bools, signed zeros, infinities, huge ints, the same as scores, omitted) are run through the real rate() of all five models and "
+            "must give bit-identical posteriors, the canonical one inside the reference interval.", "§6 C03",
+            "reference model for the canonical encoding; IEEE bit patterns for identity"),
+    "C15": ("exploration", "bounded-exhaustive metamorphic comparison of two real executions (per-call option vs. model-level option)",
+            "On every game of S2 and T3 (sigma alphabet extended so tau and the clamp are visible) x every weak order, 24 comparisons "
+            "Model(s').rate(g, option) == Model(option).rate(g) incl. tau=0 / 0.0 / 1e-300, explicit None and mixed options, "
+            "for all five models; 1e-12 relative.", "§6 C15", "none beyond CPython floats (both sides are the real code)"),
     "C17": ("exploration", "exhaustive grid sweep (x,t) incl. ulp neighbourhoods of all branch thresholds vs. 40-digit mpmath",
             "v, w, vt, wt on the full product of a dense x grid (plus threshold windows and ulp neighbourhoods) and 70 t values, "
             "and phi_major on [-37.5, 38], each point compared with the mathematical definition at 40 digits; the statement's "
